@@ -54,6 +54,20 @@ let handle cmd args : string option =
      | None -> Some ("0 0 " ^ hex_of_str buf)
      | Some ((b, len), r) -> Some (string_of_int (int_of_nat len) ^ " " ^
                                    string_of_int (List.length d - List.length r) ^ " " ^ hex_of_str b))
+  | "subch", (_ :: rest) ->
+    let rec chains = function
+      | name :: types :: t ->
+        let types = if types = "-" then "" else types in
+        (str_of_hex name, List.init (String.length types) (fun i ->
+           match types.[i] with 'P' -> Polymer | 'N' -> NonPolymer | 'B' -> Branched | 'W' -> Water | _ -> Unknown)) :: chains t
+      | _ -> [] in
+    let cs = chains rest in
+    let out = model_names cs [] in
+    Some (String.concat ";" (List.map2 (fun (_, types) o ->
+      if types = [] then "_" else
+      match o with
+      | Some l -> String.concat "," (List.map hex_of_str l)
+      | None -> String.concat "," (List.map (fun _ -> "-") types)) cs out))
   | "rows", _ ->
     (* handled in handle_full: the expected value depends on the first half of the implementation's answer *)
     None
